@@ -165,7 +165,17 @@ Fixpoint htrace (conv : catype -> pyval -> option pyval) (w : world)
      all2 file_matches (current w') real, scan_ok (current w'), caches_match w' rcs) :: htrace conv w' es'
   end.
 
-Definition htx_obs := (list Z * Z * Z * Z * bool * bool * bool)%type.
+(* per call of a transaction: how many in-flight markers of pre-built files it leaves behind (Model/SchemaTx.v call_marks) *)
+Fixpoint calls_marks (conv : catype -> pyval -> option pyval) (w : world) (q : txstate) (h : Z) (cs : list call) : list Z :=
+  match cs with
+  | [] => []
+  | c :: cs' =>
+    match call_step conv w (marked q) h c with
+    | (w', wr, _, added) => Z.of_nat (length (call_marks w (marked q) h c)) :: calls_marks conv w' (enqueue q wr added) h cs'
+    end
+  end.
+
+Definition htx_obs := (list Z * Z * Z * Z * bool * bool * bool * list Z)%type.
 
 Fixpoint thtrace (conv : catype -> pyval -> option pyval) (w : world)
     (ts : list (list (Z * opener) * txn * list real_file * list (Z * real_cache))) : list htx_obs :=
@@ -176,6 +186,7 @@ Fixpoint thtrace (conv : catype -> pyval -> option pyval) (w : world)
     | (w1, q, tr) =>
       let w' := end_tx w1 q (t_end t) in
       (map fst tr, Z.of_nat (length (w_snaps w')), Z.of_nat (length (w_store w')), Z.of_nat (length (current w')),
-       all2 file_matches (current w') real, scan_ok (current w'), caches_match w' rcs) :: thtrace conv w' ts'
+       all2 file_matches (current w') real, scan_ok (current w'), caches_match w' rcs,
+       calls_marks conv (apply_opens w os) tx_empty (t_handle t) (t_calls t)) :: thtrace conv w' ts'
     end
   end.
